@@ -153,6 +153,22 @@ def str_method(I, s, name):
                     SStr(z3.SubString(me.term, i + z3.Length(sep), z3.Length(me.term) - i - z3.Length(sep)), isb)]
         raise Undecided("split on symbolic string")
 
+    def strip_like(I_, a, k):
+        """strip/lstrip/rstrip (default whitespace set): result r is a substring of s; r == s iff the
+        stripped end(s) of s carry no ASCII whitespace, otherwise r is strictly shorter."""
+        if conc(a):
+            return native(a, k)
+        if a:
+            raise Undecided("strip with explicit character set on symbolic string")
+        t = me.term
+        r = z3.String(fresh_name("stripped"))
+        n = z3.Length(t)
+        ws_first = z3.And(n > 0, z3.InRe(z3.SubString(t, 0, 1), WS))
+        ws_last = z3.And(n > 0, z3.InRe(z3.SubString(t, n - 1, 1), WS))
+        dirty = {"strip": z3.Or(ws_first, ws_last), "lstrip": ws_first, "rstrip": ws_last}[name]
+        I.path.fact(z3.And(z3.Contains(t, r), z3.If(dirty, z3.Length(r) < n, r == t)), "str.%s model" % name)
+        return SStr(r, isb)
+
     def generic(I_, a, k):
         if conc(a):
             return native(a, k)
@@ -162,7 +178,7 @@ def str_method(I, s, name):
         if conc(a):
             return native(a, k)
         raise Undecided("upper on symbolic string")
-    t = {"startswith": startswith, "endswith": endswith, "join": join, "find": find, "index": index,
+    t = {"strip": strip_like, "lstrip": strip_like, "rstrip": strip_like, "startswith": startswith, "endswith": endswith, "join": join, "find": find, "index": index,
          "encode": enc, "decode": dec, "split": split}
     return MF("str." + name, t.get(name, generic))
 
